@@ -2,7 +2,7 @@
 
 CrossHair conditions (harness/c06_h.py): ONE inductive step of the real reindex_database (+ the
 write-back events that follow it) from every pair of per-page states satisfying the invariants
-I (hash entry matches file => index holds that file's notes) and I2 (indexed => has a hash entry),
+I (hash entry H(T) => index holds the notes of T, whatever the file holds now) and I2 (indexed => has a hash entry),
 for a plain run and for explicit-path runs; plus a short real history (two_steps).
 Replay: real directory put into the witness state (db create + edits + hash file), real
 `db reindex`, compared with a fresh `db create` on a copy of the final files.
@@ -104,6 +104,23 @@ def _judge_after(z, mode):
     for v in idx:
         if v["page"] not in hm:
             return False, "page %s is indexed but has no hash-map entry" % v["page"]
+    # a stale entry H(T) (T != the file) is a missed edit waiting to happen: SHOW it - put every such T back and run a
+    # plain reindex
+    stale = []
+    for name, h in sorted(hm.items()):
+        for t in (V1, V2, VNZ):
+            if h == sha(t) and files.get(name) != t:
+                (z / name).parent.mkdir(parents=True, exist_ok=True)
+                (z / name).write_text(t)
+                stale.append((name, t))
+    if stale:
+        zreal.reindex(z, [])
+        idx2 = zreal.db_note_views(z)
+        fresh2, _ = _fresh_views(z)
+        if idx2 != fresh2:
+            return False, ("after the run the hash map still holds the entries of %r; writing those texts back and running a "
+                           "plain `db reindex` leaves the index at %r, a fresh one has %r (edit missed)" % (
+                               stale, [(v["page"], v["body"]) for v in idx2], [(v["page"], v["body"]) for v in fresh2]))
     return True, ""
 
 
@@ -162,8 +179,8 @@ def main():
             "as ONE inductive step: the pre-state (files, index, hash map of two pages) ranges over every pair of per-page "
             "states satisfying the invariants I and I2; asserted afterwards: I and I2 again, no page added twice, and for a "
             "plain run index == files and hash map == hashes of the files. Histories of any length and any interleaving of "
-            "edits / explicit-path runs / plain runs follow by induction (edits preserve I and I2 because the hash is "
-            "injective); a short real history is checked in addition (two_steps)."),
+            "edits / explicit-path runs / plain runs follow by induction (I and I2 do not mention the files, so edits "
+            "preserve them); a short real history is checked in addition (two_steps)."),
         functions=["zorg.service.handlers.reindex_database/_get_file_hash_map/_get_zo_paths_to_index/_get_file_hash_path/"
                    "_get_error_file_whitelist/_write_file_hash_to_disk/_update_zo_file/add_zids_to_notes_in_file",
                    "zorg.storage.sql._repo._add_zids", "zorg.shared.common.strip_zdir"],
@@ -181,7 +198,7 @@ def main():
     T = 200 if tier == "quick" else 600
     env0 = {"XH_KNOWN": ",".join(sorted(kf_ids))}
     conds = []
-    chunk = 4
+    chunk = 2
     for lo in range(0, len(valid), chunk):
         hi = min(len(valid), lo + chunk)
         conds.append(xh.Cond(H, "step", timeout=T, env=dict(env0, XH_S0="%d-%d" % (lo, hi)),
@@ -190,9 +207,25 @@ def main():
     conds.append(xh.Cond(H, "two_steps", timeout=T, env=env0, meta={"family": "history"}))
     if "KF-C06-1" in kf_ids:
         conds.append(xh.Cond(H, "kf_deleted_page", timeout=T, env=env0, meta={"family": "known", "known_finding": "KF-C06-1"}))
-    conds.append(xh.Cond(H, "step", timeout=30, twin=True, env=dict(env0, XH_S0="20-24"), meta={"variant": "s0[20,24)", "family": "twin"}))
+    conds.append(xh.Cond(H, "step", timeout=30, twin=True, env=dict(env0, XH_S0="8-12"), meta={"variant": "s0[8,12)", "family": "twin"}))
     results = xh.run_all(conds)
     handle_xh(rep, results, replayer)
+    # engine cross-validation: the same harness function, untraced, on the whole finite state space
+    cc = xh.concrete_sweep(H, "step", [[0, len(valid)], [0, len(valid)], [0, 3]], env=env0)
+    if cc.get("error"):
+        rep.harness_error("concrete cross-validation of step failed to run: " + cc["error"])
+    else:
+        rec = rep.add("step#concrete-crosscheck", "python (untraced harness)", "confirmed" if not cc["n_bad"] else "refuted",
+                      "%d concrete runs of the harness function, %d False" % (cc["runs"], cc["n_bad"]), cc["wall_s"],
+                      cc["runs"], "engine-validation")
+        for b in cc["bad"][:3]:
+            ok, record = replayer("step", tuple(b["args"]), {}, {})
+            if ok:
+                rep.violation(record.get("summary", str(b)), dict(record, call="step%r" % (tuple(b["args"]),),
+                                                                  condition="step#concrete-crosscheck"))
+            else:
+                rep.harness_error("concrete run step%r is False (%s) but does not reproduce on the real code" % (
+                    tuple(b["args"]), b["why"]))
     rep.sample({"pre_state": {"files": [V2, None], "index": [V1, V1], "hashes": [V1, V1]}, "run": "db reindex"})
     sys.exit(rep.finish())
 
